@@ -156,6 +156,18 @@ def check_guard(inp):
         pass
     except Exception as e:
         return Failure('guard', inp, 'TypeError', 'raised %s: %s' % (type(e).__name__, str(e)[:100]))
+    # ... and with fairness constraints: one that no path meets (no fair state at all), one that every
+    # path meets, the empty list; the formula is outside the logic whatever F says
+    for Fk, Fv in (('no fair path', [set()]), ('every path fair', [set(kripke.states())]), ('empty list', [])):
+        try:
+            with core.quiet():
+                res = fm.lang(checker).modelcheck(kripke, r[1], F=Fv)
+            return Failure('guard', inp, 'TypeError', 'returned %r' % (res,),
+                           '%s.modelcheck with F=%r (%s) accepted a %s' % (checker, Fv, Fk, fm.kind(checker, t) or 'non-formula'))
+        except TypeError:
+            pass
+        except Exception as e:
+            return Failure('guard', inp, 'TypeError', 'raised %s: %s' % (type(e).__name__, str(e)[:100]), 'with F=%r' % (Fv,))
     # the same formula as TEXT (the documented modelcheck(K, 'text') usage), with the default parser
     # and with the caller's own: text the checker's grammar does not read at all is refused by the
     # parser (ParserError, C10); text it reads as something that is not a state formula must be
